@@ -238,6 +238,49 @@ func (g *gen) perturb(in *inst) event {
 	return g.converge(in, r.Chance(0.5))
 }
 
+// hangReplica: a registered replica node becomes unreachable over HTTP (or reports not-synced) on all partitions
+func (g *gen) hangReplica(in *inst) event {
+	r := g.r
+	st := in.coord.VerifState()
+	reg := map[int]bool{}
+	for _, n := range st.DataNodes {
+		reg[kOf(n)] = true
+	}
+	var cand []int
+	for _, n := range storedInfo(in, g.pid()).RaftNodes {
+		if reg[kOf(n)] {
+			cand = append(cand, kOf(n))
+		}
+	}
+	k := 1 + r.Pick(g.m)
+	if len(cand) > 0 {
+		k = cand[r.Pick(len(cand))]
+	}
+	silent := r.Chance(0.6)
+	if silent {
+		g.httpDn[k] = true
+	}
+	var f []string
+	for pid := 0; pid < g.pnum; pid++ {
+		if silent {
+			f = append(f, fmt.Sprintf("%d@%d=!", pid, k))
+			continue
+		}
+		info := storedInfo(in, pid)
+		var ms []string
+		for _, n := range info.RaftNodes {
+			ms = append(ms, fmt.Sprintf("%d:%d", kOf(n), info.RaftIDs[n]))
+		}
+		sort.Strings(ms)
+		m := "-"
+		if len(ms) > 0 {
+			m = strings.Join(ms, ",")
+		}
+		f = append(f, fmt.Sprintf("%d@%d=%s/0", pid, k, m))
+	}
+	return event{"A", f}
+}
+
 func (g *gen) nodesEvent(in *inst) event {
 	r := g.r
 	st := in.coord.VerifState()
@@ -325,7 +368,7 @@ type wk struct {
 	w    int
 }
 
-var weights = []wk{{"C", 30}, {"T", 14}, {"Ac", 14}, {"Ap", 8}, {"N", 10}, {"M", 3}, {"D", 3}, {"R", 3}, {"F", 3},
+var weights = []wk{{"C", 30}, {"T", 14}, {"Ac", 14}, {"Ap", 8}, {"Ah", 4}, {"N", 10}, {"M", 3}, {"D", 3}, {"R", 3}, {"F", 3},
 	{"X", 2}, {"O", 1}, {"B", 6}, {"K", 2}, {"P", 5},
 	{"LC", 7}, {"LS", 2}, {"Ln", 4}, {"LA", 2}, {"LL", 1}, {"LR", 2}, {"LX", 1}, {"G", 3}, {"U", 1}, {"Y", 3}}
 
@@ -369,6 +412,8 @@ func (g *gen) script(in *inst) {
 		sort.Ints(l)
 		return g.nEvent(l)
 	}
+	// a replica's node stays registered but stops answering (or answers not-synced) for every partition
+	hang := func(in *inst) event { return g.hangReplica(in) }
 	nscripts := 3
 	if g.has("L") {
 		nscripts = 4
@@ -407,8 +452,14 @@ func (g *gen) script(in *inst) {
 			g.queue = append(g.queue, ls("0"), lc)
 		}
 	case 0: // a replica's node fails; migrate, finish the removal, replace
-		g.queue = []func(in *inst) event{conv(true), loseReplica, check, tick(18), conv(true), check, conv(false), tick(6), check,
-			tick(18), check, conv(false), check, tick(18), check}
+		if r.Chance(0.5) {
+			// ... while another replica is registered but unreachable: the majority must be counted by reachability
+			g.queue = []func(in *inst) event{conv(true), loseReplica, hang, check, tick(18), check, tick(18), check, allUp, conv(true), check,
+				conv(false), tick(6), check, tick(18), check}
+		} else {
+			g.queue = []func(in *inst) event{conv(true), loseReplica, check, tick(18), conv(true), check, conv(false), tick(6), check,
+				tick(18), check, conv(false), check, tick(18), check}
+		}
 	case 1: // stabilise, then balance rounds
 		if !g.has("B") {
 			return
@@ -491,6 +542,8 @@ func (g *gen) next1(in *inst, kind string) event {
 		return g.converge(in, r.Chance(0.3))
 	case "Ap":
 		return g.perturb(in)
+	case "Ah":
+		return g.hangReplica(in)
 	case "N":
 		return g.nodesEvent(in)
 	case "M":
